@@ -68,7 +68,7 @@ func runSolversV(files []string, timeoutS int, all bool, skipCvc5 bool) solveRes
 			if vi > 0 && s.name == "z3" {
 				continue // variants: newest z3 and cvc5 only
 			}
-			if vi == 1 && len(files) > 2 && s.name == "cvc5" {
+			if vi == 2 && s.name == "cvc5" {
 				continue
 			}
 			n++
@@ -150,7 +150,26 @@ func (g *Gen) discharge(obls []*Obligation, workDir string, timeoutS int, all bo
 			}
 			files := []string{fn}
 			if o.Raw == "" {
-				for k := 1; k <= 2; k++ {
+				// first the lightest variant alone: most obligations need none of the dropped hypotheses
+				lq := o.queryV(g, false, 3)
+				if lq != q {
+					lf := strings.TrimSuffix(fn, ".smt2") + ".light3.smt2"
+					os.WriteFile(lf, []byte(lq), 0o644)
+					r0 := runSolversV([]string{lf}, 3, false, true)
+					if r0.result == "unsat" {
+						o.Result, o.Backend, o.Ms, o.Output = "unsat", r0.backend+"/light3", r0.ms, r0.output
+						if all {
+							// cross-check with the other solvers on the same variant
+							r1 := runSolversV([]string{lf}, timeoutS, true, false)
+							if r1.result == "sat" {
+								o.Result = "unknown"
+								o.Output = "solver disagreement on light3 variant:\n" + r1.output
+							}
+						}
+						return
+					}
+				}
+				for k := 2; k <= 3; k++ {
 					lq := o.queryV(g, false, k)
 					if lq == files2last(files, q) {
 						continue
